@@ -358,7 +358,7 @@ pub struct Model {
     pub meta_empty: Option<usize>,
     /// Plutus scripts (index into World::plutus) used BY REFERENCE for a purpose other than spending
     pub ref_plutus: Vec<usize>,
-    /// native script 0 used BY REFERENCE for a purpose other than spending (certificate 24, withdrawal 8, vote 8)
+    /// native script 0 used BY REFERENCE for a purpose other than spending (certificate 4, withdrawal 8, vote 8)
     pub ref_native_uses: u32,
     /// the last operation that `Again` can repeat
     pub last: Option<Op>,
@@ -529,7 +529,7 @@ pub fn apply(w: &World, st: &mut St, op: Op) -> bool {
                     } else {
                         // script credential 1 is witnessed by the two-key script (keys 0 and 3), the others by the
                         // one-key script: a certificate's script signers then overlap the keys of other certificates
-                        if k == 24 {
+                        if k == 4 {
                             // this one names its (one-key) script by reference
                             st.certs.add_with_native_script(&c.cert, &native_by_ref(w, 0))
                         } else {
@@ -542,7 +542,7 @@ pub fn apply(w: &World, st: &mut St, op: Op) -> bool {
                 return false;
             }
             st.m.certs.push(k);
-            if k == 24 {
+            if k == 4 {
                 st.m.ref_native_uses += 1;
             }
             st.m.last = Some(op);
@@ -1311,7 +1311,7 @@ pub fn ops_for(prop: &str) -> Vec<Op> {
             Op::Fee(0), Op::Fee(1), Op::Fee(2), Op::Fee(3), Op::Coll(1), Op::Meta, Op::RefIn(1), Op::RefIn(3),
             Op::WdAgain(0), Op::WdAgain(2), Op::Wd(4), Op::InAgain(0), Op::In(7, 0), Op::In(7, 1), Op::In(8, 0), Op::In(17, 0),
             Op::Ttl, Op::Treasury, Op::MintAndOutput, Op::MetaJson, Op::ExtraDatum(1), Op::ExtraDatum(0), Op::ExtraDatum(4), Op::MetaEmpty(0), Op::MetaEmpty(1),
-            Op::In(18, 0), Op::Mint(6), Op::Mint(5), Op::In(19, 0), Op::Wd(6), Op::In(20, 0), Op::Again, Op::Coll(3), Op::Coll(4), Op::Wd(7), Op::Wd(8), Op::Cert(24),
+            Op::In(18, 0), Op::Mint(6), Op::Mint(5), Op::In(19, 0), Op::Wd(6), Op::In(20, 0), Op::Again, Op::Coll(3), Op::Coll(4), Op::Wd(7), Op::Wd(8), Op::Cert(4),
         ],
         // C16 looks at ordering and repetition in the built transaction: items that bring scripts,
         // datums, reference inputs, signers - one or two per source
@@ -1323,7 +1323,7 @@ pub fn ops_for(prop: &str) -> Vec<Op> {
         "C18" => vec![
             Op::In(0, 0), Op::In(2, 0), Op::In(1, 0), Op::In(5, 0), Op::In(13, 0), Op::In(12, 0), Op::In(6, 0), Op::In(6, 1), Op::In(10, 0), Op::In(10, 2), Op::In(16, 3), Op::In(16, 1), Op::In(7, 0), Op::In(7, 1), Op::In(7, 4), Op::In(11, 0), Op::In(8, 0), Op::In(8, 2), Op::In(14, 0), Op::In(14, 4), Op::In(17, 0), Op::In(17, 1),
             Op::Out(0), Op::Coll(1), Op::Coll(0), Op::Cert(5), Op::Cert(7), Op::Cert(8), Op::Cert(6), Op::Cert(13), Op::Cert(25), Op::Cert(27),
-            Op::Wd(0), Op::Wd(1), Op::Wd(3), Op::Wd(4), Op::Wd(6), Op::Wd(7), Op::Wd(8), Op::Cert(24), Op::Vote(0), Op::Vote(1), Op::Vote(2), Op::Vote(3), Op::Vote(4), Op::Vote(7), Op::Vote(8),
+            Op::Wd(0), Op::Wd(1), Op::Wd(3), Op::Wd(4), Op::Wd(6), Op::Wd(7), Op::Wd(8), Op::Cert(4), Op::Vote(0), Op::Vote(1), Op::Vote(2), Op::Vote(3), Op::Vote(4), Op::Vote(7), Op::Vote(8),
             Op::Mint(0), Op::Mint(2), Op::Mint(7), Op::ReqSigner(3), Op::ReqSigner(0), Op::RefIn(0), Op::RefIn(1), Op::RefIn(2), Op::ExtraDatum(0), Op::ExtraDatum(1), Op::ExtraDatum(3), Op::Meta,
         ],
         "C09" | "C10" => vec![
